@@ -59,10 +59,12 @@ def gen_conv(draw):
     t = draw(st.sampled_from(LIN))
     us = cat.units_of(t)
     amt = draw(gen.encode(gen.fractions(), ("int", "dec", "decp", "frac")))
+    prime = draw(st.sampled_from([False, False, True]))
     if draw(st.booleans()):
-        return {"k": "pair", "u": draw(st.sampled_from(us)), "v": draw(st.sampled_from(us)), "amt": amt}
+        return {"k": "pair", "u": draw(st.sampled_from(us)), "v": draw(st.sampled_from(us)), "amt": amt,
+                "prime": prime}
     return {"k": "triple", "u": draw(st.sampled_from(us)), "w": draw(st.sampled_from(us)),
-            "v": draw(st.sampled_from(us)), "amt": amt}
+            "v": draw(st.sampled_from(us)), "amt": amt, "prime": prime}
 
 
 @st.composite
@@ -155,6 +157,14 @@ def run_case(case, ctx):
     Su, Sv = cat.scale(case["u"]), cat.scale(case["v"])
     if u is not v and Su != Sv:
         ctx.nontrivial()
+    if case.get("prime"):
+        # conversions must not depend on operations evaluated before
+        ctx.label("primed")
+        for fn in (lambda: u / v, lambda: v / u, lambda: u * v, lambda: q / v, lambda: q < Quantity(1, v)):
+            try:
+                fn()
+            except Exception:  # noqa: BLE001
+                pass
     if cat.quantum(case["u"]) is not None:
         ctx.label("quantized")
     direct = check_convert(ctx, q, v, Su, Sv, cat.quantum(case["v"]), f"{q!r}.convert({v})", "pair")
